@@ -1,4 +1,5 @@
 """C01 — digests, HMACs, PBKDF2 and CRC32C equal their specified functions."""
+import os
 import vlib
 from vlib import hx
 
@@ -146,8 +147,12 @@ def big_cases(r, tier, mult, algs, size):
     """thorough tier and failing-input search only: one update call of >= 2^29 bytes (hashes: the high word of the per-call
     bit length and the carry between the two count words) / >= 2^32 bytes (CRC32C), against two other partitions of the
     same bytes (`big`: the implementation against itself — the theorems say the value cannot depend on the partition)"""
-    if tier == "quick" and mult < 10:
+    if os.environ.get("VERIF_NO_BIG"):
         return []
+    if tier == "quick" and mult < 10:
+        # every run: the two hashes whose bit count is kept in two 32-bit words (~10 s each); the 4 GiB CRC through the
+        # portable tables takes ~45 s and stays in the thorough tier (the SSE4.2 build of C03 runs it in every tier)
+        algs = [a for a in algs if a in ("sha1", "md5")]
     out = []
     for a in algs:
         n = size + r.range(1, 300)
@@ -253,7 +258,7 @@ def components(ctx):
                             "partitions in five styles incl. 0-length calls, 1-3 byte calls, calls ending at a block boundary +-1, multi-block calls; "
                             "HMAC key lengths 0..200 weighted to {63,64,65,128,131,200}; PBKDF2 dkLen 0..100 incl. non-multiples of 32, c in 1..7 (10%: up to 20/60), "
                             "salt lengths around 51/52/59/60 (INT(i) crossing a block); non-trivial = >= 2 data-carrying update calls, or HMAC/PBKDF2, or one-shot >= 56 bytes; "
-                            "thorough tier and failing-input search: one `big` case per algorithm = ONE update call of 2^29 + k bytes against two other partitions of the same bytes; "
+                            "every run (sha1, md5; sha256 in the failing-input search): one `big` case per algorithm = ONE update call of 2^29 + k bytes against two other partitions of the same bytes; "
                             "distinct by hash of the op list",
                        classify=classify),
         vlib.Component("crc", "h_hash.c", SRCS, ["hash"], gen_crc, cpu=[],
